@@ -210,7 +210,8 @@ def _cases_task(task):
             psites = {m.pos for m in considered(g, called)}
             hv = [present_variants(g, a, mi) | (extra[k] if extra else set()) for k, (a, mi) in enumerate(bag)]
             phase_recs = evidence.plant_phases(rng, g, hv, psites,
-                                               per_copy=rng.choice([4, 10, 20]), noise=0.0 if planted is not None else 0.15)
+                                               per_copy=rng.choice([4, 10, 20]), noise=0.0 if planted is not None else 0.15,
+                                               majors=[a for a, _ in bag])
             sam = evidence.FakeSam(phase_recs)
         cov = evidence.make_coverage(g, prof, table, low, indels, None, sam)
         msol = make_major_sol(g, struct, called, novel)
